@@ -9,6 +9,7 @@ CONSTANTS
   CtxMayExpire = TRUE
   ClientMayClose = TRUE
   HandlerMayClose = TRUE
+  HandlerMayHijack = FALSE
   StartMayFail = FALSE
   SpareFields = FALSE
   SeqRestart = FALSE
